@@ -153,6 +153,7 @@ Notify(o, b, key, state) ==
 DelayVal(dk) == IF dk = "delay" THEN Delay ELSE 0
 Feed(m, k, to, dk) ==
     /\ budget.feed < MaxFeed /\ to \in Nodes /\ dk \in DelayKinds
+    /\ to # m                                   \* assumption: nobody advertises our own address (see NoSelfConnection)
     /\ IsBoot(k) => (to = BootAddr(k) /\ dk = "nil")
     /\ budget' = [budget EXCEPT !.feed = @ + 1]
     /\ IF ~IsBoot(k) /\ NoSelfGuard /\ DidOf(m) = k
@@ -240,7 +241,7 @@ Bo(m, k) == IF call[m][k].det THEN [NoContact EXCEPT !.val = call[m][k].dval] EL
 \* grpcClient.Close() (the peer's handler sees the stream context end)
 Epilogue(m, k, b, srvDead) ==
     LET own == OutId(m, k)
-        shared == HasConn(m, own) /\ \E t \in ConnOf(m, own).str : t # CTag(m, k)
+        shared == HasConn(m, own) /\ \E t \in ConnOf(m, own).str : t \notin {CTag(m, k), "x"}     \* a handler still waits on it
     IN /\ cst' = [cst EXCEPT ![m][k] = EndCall(m, k, b)]
        /\ store' = [store EXCEPT ![m] = Persist(m, k, b)]
        /\ due' = [due EXCEPT ![m][k] = b.rem]
@@ -337,7 +338,7 @@ SrvDown(m, k) ==
     /\ call[m][k].dead \/ \E c \in cs : c.cx
     /\ LET c == CHOOSE c \in cs : TRUE IN
        conns' = [conns EXCEPT ![n] = IF c.dir = "i" \/ ~OwnerBusy(n, c) THEN Without(n, c.id)
-                                     ELSE Replace(n, c.id, [c EXCEPT !.listed = FALSE, !.cx = TRUE])]
+                                     ELSE Replace(n, c.id, [c EXCEPT !.listed = FALSE, !.cx = TRUE, !.str = (@ \ {STag(m, k)}) \cup {"x"}])]   \* the dead stream stays in its map
     /\ obs' = [obs EXCEPT ![n] = nt[1]]
     /\ bad' = nt[2]
     /\ call' = [call EXCEPT ![m][k] = Norm([call[m][k] EXCEPT !.spc = "ret", !.sst = "ok"])]
@@ -500,11 +501,11 @@ Next ==
 Spec == Init /\ [][Next]_vars
 
 \* every goroutine of the code runs; time passes; the transport keeps granting window
-Internal(m, k) == \/ Register(m, k) \/ DialOK(m, k) \/ SrvAccept(m, k) \/ SrvAdmit(m, k, TRUE) \/ SrvDown(m, k)
-                  \/ CliHeaders(m, k) \/ CliAuth(m, k, TRUE) \/ CliClose(m, k)
+CliSide(m, k) == Register(m, k) \/ DialOK(m, k) \/ CliHeaders(m, k) \/ CliAuth(m, k, TRUE) \/ CliClose(m, k)
+SrvSide(m, k) == SrvAccept(m, k) \/ SrvAdmit(m, k, TRUE) \/ SrvDown(m, k)
 FairSpec == /\ Spec
             /\ \A m \in Nodes : WF_vars(Tick(m))
-            /\ \A m \in Nodes, k \in Keys : WF_vars(Internal(m, k))
+            /\ \A m \in Nodes, k \in Keys : WF_vars(CliSide(m, k)) /\ WF_vars(SrvSide(m, k))
             /\ WF_vars(Advance) /\ WF_vars(Take) /\ WF_vars(Flush) /\ WF_vars(Credit)
 
 (***************************************************************************)
@@ -557,5 +558,11 @@ Matches(m, k) == cst[m][k].on /\ (IF IsBoot(k) THEN TRUE ELSE DidOf(cst[m][k].to
 Linked(m, k) == IF IsBoot(k) THEN \E c \in Live(m) : c.addr = BootAddr(k) /\ c.did = None
                 ELSE \E c \in Live(m) : c.did = k /\ c.auth
 EventuallyConnected == \A m \in Nodes, k \in Keys : <>[](Matches(m, k) => Linked(m, k))
+\* Under purely adversarial scheduling two nodes that keep dialling each other at the same moment can reject each other's
+\* connection for ever (each side answers "already connected", see MutualReject); the random reset of 1..5 s and the
+\* 1 s ticks make that a probability-zero schedule.  Assumption: eventually a handshake is not overlapped by another tick.
+Settled == \A m \in Nodes, k \in Keys : call[m][k].cpc \in {"idle", "up"}
+IsolatedTicks == <>[][\A m \in Nodes : Tick(m) => Settled]_vars
+EventuallyConnectedIsolated == IsolatedTicks => EventuallyConnected
 OutboxDrains == <>[](box.open => (box.q = <<>> /\ box.hand = 0))
 =============================================================================
